@@ -213,4 +213,138 @@ theorem c10_region_exhaustive (c : ClassOpts) (fields : List (String × FieldDec
   · exact Or.inl h
   · exact Or.inr (c10_eraseDups_ne_nil _ h)
 
+/-! ### document level -/
+
+theorem c10_flatten_ne_nil {α β} (g : α → List β) : ∀ xs : List α, (∃ x ∈ xs, g x ≠ []) → (xs.map g).flatten ≠ []
+  | [], h => by rcases h with ⟨x, hx, _⟩; simp at hx
+  | a :: as, h => by
+    simp only [List.map_cons, List.flatten_cons]
+    rcases h with ⟨x, hx, hg⟩
+    simp only [List.mem_cons] at hx
+    rcases hx with hx | hx
+    · subst hx; exact c10_ne_nil_append_left hg
+    · exact c10_ne_nil_append_right (c10_flatten_ne_nil g as ⟨x, hx, hg⟩)
+
+theorem c10_all_or_exists {α} (p : α → Bool) (q : α → Prop) (h : ∀ x, p x = true ∨ q x) :
+    ∀ xs : List α, xs.all p = true ∨ ∃ x ∈ xs, q x
+  | [] => Or.inl rfl
+  | a :: as => by
+    rcases h a with ha | ha
+    · rcases c10_all_or_exists p q h as with h2 | ⟨x, hx, hq⟩
+      · left; simp [ha, h2]
+      · right; exact ⟨x, by simp [hx], hq⟩
+    · right; exact ⟨a, by simp, ha⟩
+
+mutual
+theorem c10_exhdoc_V (opts : DeserOpts) : ∀ (f : FieldDecl) (v : PyVal),
+    plainV opts f v = true ∨ issuesV opts f v ≠ []
+  | .boolean, v => by
+    cases h : isStrV v <;> simp [plainV, issuesV, h]
+  | .float _, v => by
+    cases h : isIntV v <;> simp [plainV, issuesV, h]
+  | .enumCls _ _, v => by
+    cases h : isStrV v <;> simp [plainV, issuesV, h]
+  | .seqOf k item sz, v => by
+    cases v <;> try (right; simp [issuesV]; done)
+    rename_i xs
+    simp only [plainV, issuesV]
+    rcases c10_all_or_exists (plainV opts item) (fun x => issuesV opts item x ≠ [])
+      (fun x => c10_exhdoc_V opts item x) xs with h | h
+    · left; exact h
+    · right; exact c10_flatten_ne_nil _ xs h
+  | .setOf imm item sz, v => by
+    cases v <;> try (right; simp [issuesV]; done)
+    rename_i xs
+    simp only [plainV, issuesV]
+    rcases c10_all_or_exists (plainV opts item) (fun x => issuesV opts item x ≠ [])
+      (fun x => c10_exhdoc_V opts item x) xs with h | h
+    · left; exact h
+    · right; exact c10_flatten_ne_nil _ xs h
+  | .struct c fields defaults, v => by
+    cases v <;> try (right; simp [issuesV]; done)
+    rename_i kvs
+    simp only [plainV, issuesV]
+    cases hk : kwOfDict kvs with
+    | none => right; simp
+    | some doc =>
+      simp only
+      by_cases he : (deserExtras opts c (fields.map (·.1)) doc).isEmpty = true
+      · rcases c10_exhdoc_fields opts defaults doc fields with h | h
+        · left; simp [he, h]
+        · right; simp only [he, if_true, List.nil_append]; exact h
+      · right
+        have he' : (deserExtras opts c (fields.map (·.1)) doc).isEmpty = false := by simpa using he
+        simp [he']
+  | .anyOf fs, v => by
+    simp only [plainV, issuesV]
+    exact c10_exhdoc_all opts fs v
+  | .integer _, _ => Or.inl rfl
+  | .number _, _ => Or.inl rfl
+  | .string _ _ _, _ => Or.inl rfl
+  | .enumLit _, _ => Or.inl rfl
+  | .noneF, _ => Or.inl rfl
+  | .seqAny _ _, _ => Or.inl rfl
+  | .seqPos _ _ _ _, _ => Or.inl rfl
+  | .setAny _ _, _ => Or.inl rfl
+  | .tupleOf _ _, _ => Or.inl rfl
+  | .tuplePos _ _, _ => Or.inl rfl
+  | .mapAny _, _ => Or.inl rfl
+  | .mapOf _ _ _, _ => Or.inl rfl
+  | .oneOf _, _ => Or.inl rfl
+  | .allOf _, _ => Or.inl rfl
+  | .notF _, _ => Or.inl rfl
+  | .anything, _ => Or.inl rfl
+
+theorem c10_exhdoc_all (opts : DeserOpts) : ∀ (fs : List FieldDecl) (v : PyVal),
+    plainAll opts fs v = true ∨ issuesAll opts fs v ≠ []
+  | [], _ => Or.inl rfl
+  | f :: fs, v => by
+    simp only [plainAll, issuesAll]
+    rcases c10_exhdoc_V opts f v with h | h
+    · rcases c10_exhdoc_all opts fs v with h2 | h2
+      · left; simp [h, h2]
+      · right; exact c10_ne_nil_append_right h2
+    · right; exact c10_ne_nil_append_left h
+
+theorem c10_exhdoc_fields (opts : DeserOpts) (defaults doc : List (String × PyVal)) :
+    ∀ fields : List (String × FieldDecl),
+      plainFields opts defaults doc fields = true ∨ issuesFields opts defaults doc fields ≠ []
+  | [] => Or.inl rfl
+  | (n, f) :: rest => by
+    have hrest := c10_exhdoc_fields opts defaults doc rest
+    simp only [plainFields, issuesFields]
+    cases hl : lookup n doc with
+    | none =>
+      simp only
+      cases hd : noDefault defaults n with
+      | true =>
+        rcases hrest with h2 | h2
+        · left; simp [h2]
+        · right; simp only [if_true, List.nil_append]; exact h2
+      | false => right; simp
+    | some v =>
+      simp only
+      by_cases hv : v.isNone = true
+      · simp only [hv, if_true]
+        cases hd : noDefault defaults n with
+        | true =>
+          rcases hrest with h2 | h2
+          · left; simp [h2]
+          · right; simp only [if_true, List.nil_append]; exact h2
+        | false => right; simp
+      · simp only [hv, Bool.false_eq_true, if_false]
+        rcases c10_exhdoc_V opts f v with h | h
+        · rcases hrest with h2 | h2
+          · left; simp [h, h2]
+          · right; exact c10_ne_nil_append_right h2
+        · right; exact c10_ne_nil_append_left h
+end
+
+theorem c10_doc_exhaustive (opts : DeserOpts) (cls : FieldDecl) (d : PyVal) :
+    plainDoc opts cls d = true ∨ docIssues opts cls d ≠ [] := by
+  rcases c10_exhdoc_V opts cls d with h | h
+  · exact Or.inl h
+  · exact Or.inr (c10_eraseDups_ne_nil _ h)
+
+
 end Typedpy
